@@ -16,6 +16,7 @@ class G:
         self.max_depth = max_depth
         self.n = 0
 
+    ordered_set = False      # C05: WITHIN GROUP (...) followed by FILTER / OVER
     paren_query = False      # C05 / C02: a whole query in parentheses followed by ORDER BY / LIMIT
     accessors = False        # C18 / C09: also generate member access after a call or a parenthesis
     locking = True           # C03: FOR UPDATE / FOR SHARE is outside the formatter-supported fragment
@@ -105,6 +106,14 @@ class G:
         f = r.choice(["sum", "row_number", "rank", "max", "lag"])
         arg = "" if f in ("row_number", "rank") else self.expr(1)
         s = "%s(%s)" % (f, arg)
+        if self.ordered_set and r.random() < 0.25:
+            # ordered-set aggregate: WITHIN GROUP, then optionally FILTER or OVER (both orders of the postfix modifiers that the grammar accepts)
+            s = "%s(%s) within group (order by %s%s)" % (r.choice(["percentile_cont", "listagg", "mode"]), r.choice(["0.5", self.atom(), ""]), self.expr(1), r.choice(["", " desc"]))
+            x = r.random()
+            if x < 0.4:
+                return s + " filter (where %s)" % self.expr(1)
+            if x < 0.6:
+                return s
         if r.random() < 0.2 and arg:
             s += " filter (where %s)" % self.expr(1)
             if r.random() < 0.5:
